@@ -74,7 +74,7 @@ End == /\ Is("End")
                \cup (IF ok /\ Cardinality(Parts) # gen.n THEN {<<"participants", l>>} ELSE {})
                \cup (IF ok THEN {<<"agreement", l, p>> : p \in {q \in Parts : ~HoldsOK(q)}} ELSE {})
                \cup (IF ok /\ thr # None /\ ~(thr.t_ok /\ thr.tm1_fail) THEN {<<"thresholdsig", l>>} ELSE {})
-               \cup (IF ok /\ gen.probe THEN {<<"usable", l, p>> : p \in {q \in Parts : ~(q \in DOMAIN usable /\ usable[q].sign /\ usable[q].list)}} ELSE {})
+               \cup (IF ok /\ gen.probe THEN {<<"usable", l, p>> : p \in {q \in Parts : ~(q \in DOMAIN usable /\ usable[q].sign /\ usable[q].signkey /\ usable[q].list)}} ELSE {})
                \cup (IF ok /\ gen.probe /\ thr = None THEN {<<"thresholdsig", l>>} ELSE {})
                \cup (IF judged /\ mustfail /\ ok THEN {<<"faultsuccess", l>>} ELSE {})
                \cup (IF judged /\ mustfail THEN {<<"faultaccount", l, p>> : p \in {q \in DOMAIN holds : holds[q].present \/ holds[q].in_fetcher}} ELSE {})
